@@ -1,4 +1,5 @@
 import RModel.Base.Bytes
+import RModel.Gen.HistoryFlags
 /-
   L5 (history level): the command layer of `rename`, `undo <id|latest>`, `redo <id|latest>` over
   `.renamify/history.json`, `.renamify/plans/<id>.json` and `.renamify/backups/<id>/reverse_patches`,
@@ -25,7 +26,11 @@ import RModel.Base.Bytes
     c3d511b  `apply_plan` first refuses a plan whose id is already in the history, before anything is changed
              (redo goes through `apply_plan` too, so a same-second `redo-<id>-<sec>` is refused the same way);
     07a4584  `redo_renaming` refuses an id that already has a `redo-<id>-…` entry ("has already been redone").
-  `Cfg.current` is the code as it is; `Cfg.beforeFixes` is the code before both commits.
+  Two more checks are proposed (seeded/_fixes/c10_undo_prevalidate.diff, c10_redo_prevalidate.diff) and modelled as
+  switches too: undo validates every reverse patch in memory before it touches anything, redo validates the stored
+  plan against every file before it calls `apply_plan`.
+  `Cfg.current` is the code as it is — its four flags are REGENERATED from the source (Gen/HistoryFlags.lean);
+  `Cfg.beforeFixes`, `Cfg.withoutPrevalidation`, `Cfg.full` are fixed points of comparison.
 
   Not modelled: an unparsable history.json being replaced by an empty history (`load_from_path`; only reachable
   through a crash, C11), `--commit`, path renames (C01/C08), the lock (C12), log files.
@@ -69,19 +74,40 @@ inductive Outcome where
   | failed     -- exit ≠ 0 after the tree and/or the backup store had been written
   deriving DecidableEq, Repr
 
-/-- which of the two repairs are present -/
+/-- which of the history-safety checks are present -/
 structure Cfg where
+  /-- c3d511b: `apply_plan` refuses an id already in the history before anything is changed -/
   earlyDupCheck : Bool
+  /-- 07a4584: `redo_renaming` refuses an id that already has a `redo-<id>-…` entry -/
   redoOnce : Bool
+  /-- `undo_renaming` checks in memory that every reverse patch applies before it touches anything -/
+  undoPrevalidate : Bool
+  /-- `redo_renaming` checks the stored plan against every file before it calls `apply_plan` -/
+  redoPrevalidate : Bool
   deriving DecidableEq, Repr
 
-def Cfg.current : Cfg := { earlyDupCheck := true, redoOnce := true }
-def Cfg.beforeFixes : Cfg := { earlyDupCheck := false, redoOnce := false }
+/-- the code as it is: REGENERATED from the source on every run (`translate/history_flags.py`) -/
+def Cfg.current : Cfg :=
+  { earlyDupCheck := Gen.HistoryFlags.earlyDupCheck, redoOnce := Gen.HistoryFlags.redoOnce,
+    undoPrevalidate := Gen.HistoryFlags.undoPrevalidate, redoPrevalidate := Gen.HistoryFlags.redoPrevalidate }
+/-- the code before c3d511b and 07a4584 -/
+def Cfg.beforeFixes : Cfg :=
+  { earlyDupCheck := false, redoOnce := false, undoPrevalidate := false, redoPrevalidate := false }
+/-- the code after those two commits, without the pre-validations -/
+def Cfg.withoutPrevalidation : Cfg :=
+  { earlyDupCheck := true, redoOnce := true, undoPrevalidate := false, redoPrevalidate := false }
+/-- all four checks -/
+def Cfg.full : Cfg :=
+  { earlyDupCheck := true, redoOnce := true, undoPrevalidate := true, redoPrevalidate := true }
 
 inductive ApplyRes (Tree Backup : Type) where
   | ok (t : Tree) (b : Backup)   -- every file edited; `b` = the reverse patches that were written
   | rejected                     -- the first file failed validation: nothing written
   | partly (t : Tree)            -- a later file failed: earlier files stay edited (no content rollback)
+
+def ApplyRes.isOk {Tree Backup : Type} : ApplyRes Tree Backup → Bool
+  | .ok _ _ => true
+  | _ => false
 
 inductive RevertRes (Tree : Type) where
   | ok (t : Tree)
@@ -177,7 +203,7 @@ def stepRename (cfg : Cfg) (ops : Ops Tree Plan Backup H) (w : W Tree Plan Backu
   if ops.isEmpty p then (w, .noop)
   else applyWithId cfg ops w (.plan (ops.hash (search ++ replace) w.clock)) p
 
-def stepUndo (ops : Ops Tree Plan Backup H) (w : W Tree Plan Backup H) (t : Target H) :
+def stepUndo (cfg : Cfg) (ops : Ops Tree Plan Backup H) (w : W Tree Plan Backup H) (t : Target H) :
     W Tree Plan Backup H × Outcome :=
   match resolve w.entries true t with
   | none => (w, .rejected)
@@ -190,7 +216,9 @@ def stepUndo (ops : Ops Tree Plan Backup H) (w : W Tree Plan Backup H) (t : Targ
       else match lookup w.plans i, lookup w.backups i with
         | some p, some b =>
           match ops.revert w.tree p b with
-          | .failed t' => ({ w with tree := t' }, .failed)
+          | .failed t' =>
+            -- with the pre-validation the same patches were tried in memory first: refused, nothing touched
+            if cfg.undoPrevalidate then (w, .rejected) else ({ w with tree := t' }, .failed)
           | .ok t' =>
             match addEntry w.entries { id := .revert i w.clock, revertOf := some i } with
             | none => ({ w with tree := t' }, .failed)
@@ -207,11 +235,14 @@ def stepRedo (cfg : Cfg) (ops : Ops Tree Plan Backup H) (w : W Tree Plan Backup 
     else if cfg.redoOnce && hasRedoOf w.entries i then (w, .rejected)   -- 07a4584: "has already been redone"
     else match lookup w.plans i with
       | none => (w, .rejected)
-      | some p => applyWithId cfg ops w (.redo i w.clock) p
+      | some p =>
+        -- pre-validation of the stored plan: some file no longer has the recorded text at the recorded offsets
+        if cfg.redoPrevalidate && !(ops.apply w.tree p).isOk then (w, .rejected)
+        else applyWithId cfg ops w (.redo i w.clock) p
 
 def step (cfg : Cfg) (ops : Ops Tree Plan Backup H) (w : W Tree Plan Backup H) : Cmd H → W Tree Plan Backup H × Outcome
   | .rename s r => stepRename cfg ops w s r
-  | .undo t => stepUndo ops w t
+  | .undo t => stepUndo cfg ops w t
   | .redo t => stepRedo cfg ops w t
   | .tick => ({ w with clock := w.clock + 1 }, .noop)
 
